@@ -129,6 +129,11 @@ def run(F, R, tier):
     md = F.body("packages::matches_newest_dependency_date")
     vals = return_values(F, md)
     ok = len(vals) == 1 and vals[0].get("k") == "MethodCall" and vals[0]["name"] == "unwrap_or" and peel(vals[0]["args"][0]).get("v") is True
+    if not ok and len(vals) >= 2:
+        # explicit form: the real date test where both are present, literal `true` everywhere else
+        tests = [v for v in vals if callee_matches(v, ["matches_newest_dependency_date"]) or (v.get("k") == "MethodCall" and v["name"] == "matches_newest_dependency_date")]
+        rest = [v for v in vals if v not in tests]
+        ok = len(tests) >= 1 and bool(rest) and all(peel(v).get("v") is True for v in rest)
     R.ob("C06-b", "entries without version info or without a cutoff pass the date filter", ok, "matches_newest_dependency_date default changed: `%s`" % (expr_text(vals[0]) if vals else "?"), md["file"])
 
     # ---------------- C06-c ------------------------------------------------
